@@ -138,6 +138,8 @@ func runC09(c *Ctx) {
 	c.rule("R09.5", "protocol error codes at their sites: -32601 / -32602 / -32600 / -32700")
 	c.rule("R09.10", "an empty (also whitespace-only) body is answered, never indexed: body-byte indexes are guarded by a non-empty test of the same buffer")
 	c.bodyBytesIndexRule("R09.10")
+	c.rule("R09.11", "everything written to a message writer is produced by encoding/json (or is a constant framing byte, or forwarded by a writer wrapper): replies are well-formed JSON for every message text")
+	c.writerBytesJSON("R09.11")
 	c.ruleOpt("R09.9", "no reply bytes live in pooled memory that is handed back before they are written")
 	c.poolSharedRule("R09.9", nil)
 	c.rule("R09.6", "batch framing: one framing provider ('[' first, ',' later, only before real output), used by every emitter in the loop; ']' iff something was emitted; the loop never aborts the array")
@@ -226,6 +228,26 @@ func runC09(c *Ctx) {
 					if !errNonNil(mu.Block(), false) {
 						okAll = false
 						c.bad("R09.1", construct, c.ipos(mu), "the result member is written although an error may be set: a reply could carry both result and error")
+					}
+				}
+				if idF := respFieldByTag(r.TResp, "id"); idF != nil {
+					for _, mu := range keys["id"] {
+						v := mu.Value
+						for {
+							if mi, ok := v.(*ssa.MakeInterface); ok {
+								v = mi.X
+								continue
+							}
+							if ci, ok := v.(*ssa.ChangeInterface); ok {
+								v = ci.X
+								continue
+							}
+							break
+						}
+						if _, ok := loadsField(v, idF); !ok {
+							okAll = false
+							c.bad("R09.1", construct, c.ipos(mu), "the id member is not the response's id field itself but a value computed from it: a converted id is not the same JSON value for every id (whole numbers of magnitude 2^63 and above wrap, strings and null change type), so the reply no longer echoes the request's id")
+						}
 					}
 				}
 				if len(keys["error"]) == 0 || len(keys["result"]) == 0 {
